@@ -40,7 +40,9 @@ func newSandbox() (*c33sandbox, error) {
 	if err := os.MkdirAll(s.storage, 0o755); err != nil {
 		return nil, err
 	}
-	for _, f := range []string{"canary.json", "a/canary.json", "a/b/canary.json", "a/b/storage.json", "a/b.json", "a/b/neighbour/secret.json", "a.json"} {
+	for _, f := range []string{"canary.json", "a/canary.json", "a/b/canary.json", "a/b/storage.json", "a/b.json", "a/b/neighbour/secret.json", "a.json",
+		// siblings whose names begin with the storage directory's name
+		"a/b/storage_backup/x.json", "a/b/storage_backup/canary.json", "a/b/storage2.json", "a/b/storage2/canary.json"} {
 		p := filepath.Join(root, f)
 		os.MkdirAll(filepath.Dir(p), 0o755)
 		if err := os.WriteFile(p, []byte("CANARY "+f), 0o644); err != nil {
@@ -166,6 +168,23 @@ func runC33(r *simkit.Run) {
 				name := []string{"nsa", "nsb", "nsc"}[tp.Choose(3)]
 				version++
 				ns := c33ns(tp, name, version)
+				if _, have := submitted[name]; have && tp.Chance(1, 3) {
+					// an administrator edits what was stored: the namespace is loaded (decrypted), one setting is
+					// changed and the same object is submitted again
+					var lerr error
+					guarded(r, "LoadNamespace", func() {
+						ns, lerr = models.NewStore(&simcoord.Client{C: w.coord, Root: root()}).LoadNamespace(key, name)
+					})
+					if r.Failed() {
+						return
+					}
+					if lerr != nil || ns == nil {
+						r.Failf("C33-saved-namespace-cannot-be-loaded", "namespace %s was saved but loading it for an edit fails: %v", name, lerr)
+						return
+					}
+					ns.MaxSqlExecuteTime = version
+					r.Probe("loaded-namespace-edited-and-resubmitted")
+				}
 				want := credsOf(ns)
 				err := service.ModifyNamespace(ns, w.cfg, cluster)
 				r.Sched("op", fmt.Sprintf("save/%v", err == nil))
@@ -294,7 +313,8 @@ func runC33(r *simkit.Run) {
 					return
 				}
 				hostile := []string{"..", "../", "./..", "../canary", "../../canary", "../../../canary", "a/../../b", "x/../..", "/etc/verif-c33-should-not-exist", "/" + filepath.Join(sb.root, "canary"),
-					root() + "/namespace/../../..", root() + "/namespace/../../../canary", "ns with space", "ns\ttab", "名字", "ns*star", "ns|pipe", "ns?q", strings.Repeat("n", 1100), "a//b", "./a", "a/./b", "..a", "a..", ".hidden"}
+					root() + "/namespace/../../..", root() + "/namespace/../../../canary", "ns with space", "ns\ttab", "名字", "ns*star", "ns|pipe", "ns?q", strings.Repeat("n", 1100), "a//b", "./a", "a/./b", "..a", "a..", ".hidden",
+					"../storage_backup/x", "../storage_backup/canary", "../storage_backup", "../storage", "../storage2", "../storage2/canary", root() + "/../../storage2/canary"}
 				p := hostile[tp.Choose(len(hostile))]
 				op := tp.Choose(6)
 				guarded(r, "local client with a hostile path", func() {
@@ -320,7 +340,7 @@ func runC33(r *simkit.Run) {
 						r.Failf("C33-read-outside-storage", "Read(%q) returned the content of a file outside the storage directory: %q", p, data)
 					}
 					for _, l := range list {
-						if strings.Contains(l, "canary") || strings.Contains(l, "neighbour") || strings.Contains(l, "storage.json") {
+						if strings.Contains(l, "canary") || strings.Contains(l, "neighbour") || strings.Contains(l, "storage.json") || strings.Contains(l, "storage_backup") || strings.Contains(l, "storage2") {
 							r.Failf("C33-read-outside-storage", "List(%q) enumerates files outside the storage directory: %v", p, list)
 						}
 					}
